@@ -253,6 +253,43 @@ theorem group_filter_is_id_filter (pts : List GPoint) (p : GPoint) (hp : cleanPo
     simp [this]
   · simp [this.mpr h]
 
+/-- **The property in its own terms, partial** (identity and isolation composed): a stream of points, each
+carrying the id the code gives it (`idOf`), through ANY receiver without node-wide state. If all points are clean
+and under the same by-name flag, then for every point `g` of the stream the output labelled with `g`'s id on the
+full stream is the output of the run fed exactly the points that are in the SAME GROUP as `g` (by measurement and
+group-by tag values) — whatever other groups are interleaved. Missing from the full statement: points with the
+excluded characters (finding groupid-delimiter-collision). -/
+theorem isolation_per_group_partial {σ π ο : Type} (N : Node Unit σ π ο) (ps : List (GPoint × π)) (g : GPoint)
+    (hg : cleanPoint g = true) (hc : ∀ q ∈ ps, cleanPoint q.1 = true ∧ q.1.byName = g.byName) :
+    (runNode N () (ps.map (fun q => Item.point (idOf q.1) q.2))).filter (fun o => o.1 == idOf g) =
+      runNode N () ((ps.filter (fun q => sameGroup q.1 g)).map (fun q => Item.point (idOf q.1) q.2)) := by
+  rw [demux_noninterference_pure, List.filter_map]
+  congr 2
+  apply List.filter_congr
+  intro q hq
+  obtain ⟨hcq, hb⟩ := hc q hq
+  have := groupid_injective_partial q.1 g hb hcq hg
+  simp only [Function.comp, Item.group]
+  cases h : sameGroup q.1 g
+  · have : ¬ idOf q.1 = idOf g := fun e => by rw [this.mp e] at h; cases h
+    simp [this]
+  · simp [this.mpr h]
+
+/-- the transcribed receivers with per-group state only, by name (instances of `demux_noninterference_pure`) -/
+theorem modelled_nodes_isolated (items : List (Item Pt)) (g : GroupID) :
+    (∀ n, (runNode (sampleNode n) () items).filter (fun o => o.1 == g) = runNode (sampleNode n) () (items.filter (fun it => it.group == g))) ∧
+    (∀ t, (runNode (stateCountNode t) () items).filter (fun o => o.1 == g) = runNode (stateCountNode t) () (items.filter (fun it => it.group == g))) ∧
+    (∀ m r, (runNode (whereCountNode m r) () items).filter (fun o => o.1 == g) = runNode (whereCountNode m r) () (items.filter (fun it => it.group == g))) ∧
+    ((runNode evalCountNode () items).filter (fun o => o.1 == g) = runNode evalCountNode () (items.filter (fun it => it.group == g))) :=
+  ⟨fun _ => demux_noninterference_pure _ items g, fun _ => demux_noninterference_pure _ items g,
+   fun _ _ => demux_noninterference_pure _ items g, demux_noninterference_pure _ items g⟩
+
+/-- the recording receiver of the harness (the tie of `Demux.step` on all message types) is isolated too: on
+streams with barriers, buffered/unbuffered batches and deletions -/
+theorem recording_node_isolated (items : List (Item Nat)) (g : GroupID) :
+    (runNode recNode () items).filter (fun o => o.1 == g) = runNode recNode () (items.filter (fun it => it.group == g)) :=
+  demux_noninterference_pure _ items g
+
 /-! ### Non-vacuity -/
 
 example : cleanPoint { byName := true, name := "cpu", tags := [("host", "a b"), ("dc", "k=1")], dims := ["dc", "host"] } = true := by decide
@@ -265,5 +302,10 @@ example :
     let it (g : String) (t : Int) (v : Val) : Item Pt := .point g { name := "m", key := g, v := v, time := t }
     (runNode (iqlNode .sum) {} [it "A" 1 (.int 2), it "B" 1 (.str "u"), it "A" 1 (.int 3), it "B" 2 (.str "u"), it "A" 2 (.int 1)]).map (·.2.proj)
       = ["i:5"] := by decide
+
+example :
+    let items : List (Item Nat) := [.point "A" 0, .batch "B" 0 [0, 0] 0, .buffered "A" 2, .delete "B" 0, .barrier "B" 0, .delete "Z" 0]
+    ((runNode recNode () items).filter (fun o => o.1 == "B")).map (fun o => (o.2.call, o.2.n)) =
+      [("B", 1), ("p", 2), ("p", 3), ("E", 4), ("D", 5), ("R", 1)] := by decide
 
 end Kap.Props.C06
